@@ -273,3 +273,49 @@ def loop_leaks(fn, loop, cfg):
                 out.append((name, u, assigned[name][0]))
                 break
     return out
+
+
+def path_condition(root, stmt):
+    """[(test expression, polarity)] of the If statements enclosing `stmt` inside `root` (polarity True: stmt is in the body)"""
+    out = []
+
+    def rec(node, chain):
+        if node is stmt:
+            out.append(list(chain))
+            return True
+        if isinstance(node, ast.If):
+            for b, pol in ((node.body, True), (node.orelse, False)):
+                for ch in b:
+                    if rec(ch, chain + [(node.test, pol)]):
+                        return True
+            return False
+        for ch in ast.iter_child_nodes(node):
+            if isinstance(ch, ast.AST) and rec(ch, chain):
+                return True
+        return False
+    rec(root, [])
+    return out[0] if out else None
+
+
+def slice_names(fn, expr):
+    """backward def-use closure (names) of an expression inside fn: names whose assignments can flow into it"""
+    names, work = set(), [x.id for x in ast.walk(expr) if isinstance(x, ast.Name)]
+    stmts = []
+    while work:
+        nm = work.pop()
+        if nm in names:
+            continue
+        names.add(nm)
+        for st in ast.walk(fn):
+            val = None
+            if isinstance(st, ast.Assign) and any(isinstance(y, ast.Name) and y.id == nm for t in st.targets for y in ast.walk(t)):
+                val = st.value
+            elif isinstance(st, (ast.For, ast.comprehension)) and any(isinstance(y, ast.Name) and y.id == nm for y in ast.walk(st.target)):
+                val = st.iter
+            elif isinstance(st, ast.Expr) and isinstance(st.value, ast.Call) and isinstance(st.value.func, ast.Attribute) and \
+                    st.value.func.attr in ("append", "extend", "update") and isinstance(st.value.func.value, ast.Name) and st.value.func.value.id == nm:
+                val = st.value
+            if val is not None:
+                stmts.append(st)
+                work += [x.id for x in ast.walk(val) if isinstance(x, ast.Name)]
+    return names, stmts
